@@ -293,7 +293,7 @@ def run_history(hist: List[list]) -> Dict[str, Any]:
 def _worker_main():
     data = json.load(sys.stdin)
     fn = {"hist": run_history, "meta": run_meta, "loop": run_loop, "roles": run_roles, "clone": run_clone, "grow": run_grow,
-          "lateclass": run_lateclass, "special": run_special}
+          "lateclass": run_lateclass, "special": run_special, "rules": run_rules}
     out = {"tbl": class_table(), "res": []}
     import gc
     import test.dataset.university_ontology_like_classes  # noqa  (fixed set of Symbol classes per worker)
@@ -837,6 +837,95 @@ def run_special(payload) -> Dict[str, Any]:
     gc.collect()
     SymbolGraph().remove_dead_instances()
     return {"got": got, "expected": exp}
+
+
+_RULE_CL = None
+
+
+def _rule_classes():
+    global _RULE_CL
+    if _RULE_CL is None:
+        from dataclasses import dataclass
+        from krrood.entity_query_language.predicate import Symbol
+
+        @dataclass(eq=False)
+        class RHandle(Symbol):
+            name: str
+
+        @dataclass(eq=False)
+        class RBody(Symbol):
+            name: str
+            handle: RHandle = None
+            size: int = 0
+
+        @dataclass(eq=False)
+        class RView(Symbol):
+            pass
+
+        @dataclass(eq=False)
+        class RDrawer(RView):
+            handle: RHandle = None
+            body: RBody = None
+
+        @dataclass(eq=False)
+        class RDoor(RView):
+            handle: RHandle = None
+            body: RBody = None
+
+        _RULE_CL = (RHandle, RBody, RView, RDrawer, RDoor)
+    return _RULE_CL
+
+
+def run_rules(payload) -> Dict[str, Any]:
+    """C20 over RULE queries (conclusions that infer new instances, refinement / alternative branches, a selected inferred
+    variable): build, evaluate `evaluations` times, drop everything, collect.  Reports per round how many of the instances the
+    rule ranged over are still alive, how many instances a fresh domain-less variable still sees, and the graph's nodes."""
+    import gc
+    import weakref
+    from krrood.entity_query_language.conclusion import Add
+    from krrood.entity_query_language.entity import let, entity, inference
+    from krrood.entity_query_language.rule import refinement, alternative
+    from krrood.entity_query_language.quantify_entity import an
+    from krrood.entity_query_language.predicate import Symbol
+    from krrood.entity_query_language.symbol_graph import SymbolGraph
+
+    RHandle, RBody, RView, RDrawer, RDoor = _rule_classes()
+    gc.collect()
+    SymbolGraph().clear()
+    SymbolGraph()
+    rows = []
+    for rnd in range(payload["rounds"]):
+        handles = [RHandle(f"h{rnd}_{i}") for i in range(3)]
+        bodies = [RBody(f"b{rnd}_{i}", handles[i], i) for i in range(3)]
+        refs = [weakref.ref(x) for x in handles + bodies]
+        body, handle = let(RBody, None), let(RHandle, None)
+        if payload["shape"] == "inferred_selected":
+            query = an(entity(views := inference(RView)(), body.handle == handle))
+        else:
+            query = an(entity(views := let(RView, None), body.handle == handle))
+        with query:
+            Add(views, inference(RDrawer)(handle=handle, body=body))
+            if payload["shape"] == "refinement":
+                with refinement(body.size > 1):
+                    Add(views, inference(RDoor)(handle=handle, body=body))
+            elif payload["shape"] == "alternative":
+                with alternative(body.size > 5):
+                    Add(views, inference(RDoor)(handle=handle, body=body))
+        n = []
+        for _ in range(payload["evaluations"]):
+            res = list(query.evaluate())
+            n.append(len(res))
+            refs += [weakref.ref(d) for d in res]
+            del res
+        del handles, bodies, body, handle, views, query
+        gc.collect()
+        visible = len(list(an(entity(let(RHandle, None))).evaluate())) + len(list(an(entity(let(RBody, None))).evaluate())) \
+            + len(list(an(entity(let(RView, None))).evaluate()))
+        gc.collect()
+        SymbolGraph().remove_dead_instances()
+        rows.append({"results": n, "alive": sum(1 for r in refs if r() is not None), "visible": visible,
+                     "nodes": len(SymbolGraph()._instance_graph.nodes())})
+    return {"rows": rows}
 
 
 def special_jobs(rep: Report, prop: str, payloads: List[dict]) -> Dict[str, int]:
